@@ -224,6 +224,11 @@ func checkC08(p *Prog, r *Report) {
 			if "os.Create" == name {
 				rPerm.Bad(cc+":perm", posOf(i), "%s creates files with mode 0666", name)
 			}
+			/* "At any nesting depth": every missing directory on the way
+			is made, not just the last. */
+			if "os.Mkdir" == name && top == save {
+				rWrite.Bad(cc+":all-levels", posOf(i), "the cache's directory is made with os.Mkdir: when more than one level is missing nothing is saved, and every start generates (and serves) a new key")
+			}
 		})
 	}
 	checkC08Outside(p, r, rPerm)
